@@ -16,6 +16,7 @@ EventOK(e) ==
   CASE e.op = "add" -> e.out = Out(ScAdd(In255(e.a), In255(e.b)))
     [] e.op = "sub" -> e.out = Out(ScSub(In255(e.a), In255(e.b)))
     [] e.op = "mul" -> e.out = Out(ScMul(In255(e.a), In255(e.b)))
+    [] e.op = "uint64" -> e.out = Out(FromBytes(e.a))                              \* SetUint64 / One: no reduction needed
     [] e.op = "neg" -> e.out = Out(ScNeg(In255(e.a)))
     [] e.op = "reduce" -> e.out = Out(ModL(In255(e.a)))
     [] e.op = "modorder" -> e.ok /\ e.out = Out(ModL(FromBytes(e.a)))          \* all 256 bits
